@@ -284,7 +284,7 @@ def judge_binary(case):
     if case.get('present'):
         # keywords that only shape the message must not change the verdict
         kwargs.update({'explanation': {'explanation': 'because I say so'}, 'context': {'context': 'in this context'}, 'assertion': {'assertion': 'my wording'},
-                       'silent-context': {'context': False, 'assertion': False}, 'testcase': {'_testcase': True}, 'after-clear-context': {}}[case['present']])
+                       'silent-context': {'context': False, 'assertion': False}, 'testcase': {'_testcase': True}, 'after-clear-context': {}, 'kept-across-clear-context': {}}[case['present']])
     viol, classes = [], ['family=' + fam] + (['presentation-kwargs'] if case.get('present') else [])
     outcomes = {}
     relation_by_wrap = {}
@@ -296,6 +296,8 @@ def judge_binary(case):
             sb.clear_context()         # the instructor dropped the execution history: assertions on new results still work
         a_op, a_val, a_err = make_operand(a_src, wrap[0] == 'p', sb)
         b_op, b_val, b_err = make_operand(b_src, wrap[1] == 'p', sb)
+        if case.get('present') == 'kept-across-clear-context':
+            sb.clear_context()         # ... or drops the history while it still holds results of it: they are still values
         if a_err or b_err:
             expect = 'error'
         elif fam == 'equal':
@@ -815,7 +817,7 @@ def table(tier):
         for a, b in itertools.product(firsts, seconds):
             if a in ERRORS and b in ERRORS:
                 continue
-            for present in ('explanation', 'context', 'assertion', 'silent-context', 'testcase', 'after-clear-context'):
+            for present in ('explanation', 'context', 'assertion', 'silent-context', 'testcase', 'after-clear-context', 'kept-across-clear-context'):
                 yield {'kind': 'binary', 'family': fam, 'a': a, 'b': b, 'present': present}
     for fam in UNARY_FAMILIES:
         for a in vals:
